@@ -211,7 +211,8 @@ def main():
         soft = [f for f in remaining if f["kind"] != "property"]
         if soft and not concrete:
             found = props.search_failing_input(prop, res, soft)
-            concrete = found
+            # what the search finds is subject to the same known-findings file as what the run itself finds
+            concrete = [f for f in found if not any(k["property"] == prop and props.matches_known(k, f) for k in known.get("open", []))]
         replay_path = None
         violation = bool(remaining)
         if violation:
